@@ -247,7 +247,9 @@ func guard(f func() Res) (res Res) {
 			res = Res{Panic: scrub(msg), Frame: repoFrame()}
 		}
 	}()
-	return f()
+	res = f()
+	simrt.DrainGo() // goroutines the call started and did not wait for (outside the scheduler they are queued)
+	return res
 }
 
 func errRes(err liquid.SourceError, stage string) Res {
